@@ -85,11 +85,15 @@ def random_case(rng, task, n_vocab=None, n_clips=None):
             ml = task == "clip_multilabel_classification"
             clip["ann_tags"] = _true_tags(rng, vocab, pool, multilabel=ml)
             clip["pred_tags"] = _pred_tags(rng, vocab, pool, single_label=not ml)
+            if rng.random() < 0.15:
+                # a second prediction for the same clip (the outputs of two passes concatenated): one more evaluated item
+                clip["alt_pred_tags"] = _pred_tags(rng, vocab, pool, single_label=not ml)
+                clip["alt_first"] = rng.random() < 0.5
         elif task == "sound_event_classification":
             if rng.random() < 0.4:       # clip-level tags / predicted tags exist too; they are not what this task evaluates
                 clip["ann_tags"] = _true_tags(rng, vocab, pool, multilabel=True)
                 clip["pred_tags"] = _pred_tags(rng, vocab, pool, single_label=False)
-            ne = rng.choice([0, 1, 2, 3, 5])
+            ne = rng.choice([0, 1, 2, 3, 5] if rng.random() > 0.08 else [17, 30])
             for ei in range(ne):
                 box = geoms.random_box(rng, "dyadic")
                 clip["events"].append({"kind": "both_same_event", "geom": geoms.geom_in_box(rng, rng.choice(["BoundingBox", "TimeInterval", "Point"]), *box),
@@ -104,6 +108,9 @@ def random_case(rng, task, n_vocab=None, n_clips=None):
                 clip["ann_tags"] = _true_tags(rng, vocab, pool, multilabel=True)
                 clip["pred_tags"] = _pred_tags(rng, vocab, pool, single_label=False)
             na, npred = rng.choice([0, 1, 2, 3, 5]), rng.choice([0, 1, 2, 3, 5])
+            if rng.random() < 0.1:
+                # a busy clip: dozens of events on one or both sides (a dawn chorus), some of them without geometry
+                na, npred = rng.choice([(17, 3), (3, 17), (24, 24), (33, 18), (18, 40)])
             slots = []
             t = 0.0
             for _ in range(max(na, npred) + 2):
@@ -228,8 +235,13 @@ def build(spec, order=None):
         if c["only"] in ("both", "ann"):
             cas.append(data.ClipAnnotation(uuid=_u("ca", ci), clip=clip, sound_events=anns, tags=[tag(t) for t in c["ann_tags"]]))
         if c["only"] in ("both", "pred"):
-            cps.append(data.ClipPrediction(uuid=_u("cp", ci), clip=pclip, sound_events=preds,
-                                           tags=[data.PredictedTag(tag=tag(t), score=t[2]) for t in c["pred_tags"]]))
+            main = data.ClipPrediction(uuid=_u("cp", ci), clip=pclip, sound_events=preds,
+                                       tags=[data.PredictedTag(tag=tag(t), score=t[2]) for t in c["pred_tags"]])
+            both = [main]
+            if c.get("alt_pred_tags") is not None:
+                alt = data.ClipPrediction(uuid=_u("cp_alt", ci), clip=pclip, tags=[data.PredictedTag(tag=tag(t), score=t[2]) for t in c["alt_pred_tags"]])
+                both = [alt, main] if c.get("alt_first") else [main, alt]
+            cps.extend(both)
     return cps, cas, [tag(t) for t in spec["vocab"]], idx
 
 
@@ -360,3 +372,22 @@ METRIC_LABELS = {"Balanced Accuracy", "Accuracy", "Top 3 Accuracy", "True Class 
 
 def close(a, b, tol=1e-9):
     return a is not None and b is not None and not (isinstance(a, float) and math.isnan(a)) and abs(a - b) <= tol
+
+
+def pred_tags_of(spec, ci, ce):
+    """The predicted tags (spec form) of the clip prediction a clip evaluation was computed from."""
+    c = spec["clips"][ci]
+    if c.get("alt_pred_tags") is not None and str(ce.predictions.uuid) == str(_u("cp_alt", ci)):
+        return c["alt_pred_tags"]
+    return c["pred_tags"]
+
+
+def expected_clip_ids(spec):
+    """Clip uuid (str) of every item that must be evaluated: once per prediction of a clip that is also annotated."""
+    out = []
+    for ci, c in enumerate(spec["clips"]):
+        if c["only"] == "both":
+            out.append(str(_u("clip", ci)))
+            if c.get("alt_pred_tags") is not None:
+                out.append(str(_u("clip", ci)))
+    return out
